@@ -200,6 +200,31 @@ def run(F, R, tier):
     R.check("K8", ok8b, "%d Coll::find overloads search with key_matches" % len(finds), F.loc(finds[0]) if finds else "src/slhaea.h",
             "Coll::find does not use the case-insensitive predicate", key="K8|find")
 
+    # ---- K1c: the fallback conversion SLHAea::to<T> is a whole-token lexical cast ---------------------------------
+    R.rule("K1c", "SLHAea::to<Target>(token), the fallback of convert_to and the converter of the SLHAea container itself, returns "
+                  "boost::lexical_cast<Target>(token) (which rejects a token that is not consumed entirely) on its only path", 1)
+    tos = [g for g in F.by_name.get("SLHAea::to", []) if g.get("body") is not None]
+    if not tos:
+        R.soft_broken("K1c: no instantiation of SLHAea::to found")
+    for g in tos:
+        body = g["body"].get("c", []) if g["body"].get("k") == "CompoundStmt" else [g["body"]]
+        ok = len(body) == 1 and body[0].get("k") == "ReturnStmt" and body[0].get("c")
+        if ok:
+            c = strip_all(body[0]["c"][0])
+            while c is not None and c.get("k") in ("CXXConstructExpr",) and len(c.get("c", [])) == 1:
+                c = strip_all(c["c"][0])
+            ok = c is not None and is_call(c) and str(c.get("fn") or "").split("<")[0] == "boost::lexical_cast"
+        if not ok:
+            # a different implementation: a definite alarm only for the known partial parsers (stream extraction, sto*/strto*/ato*)
+            partial = any(is_call(x) and (x.get("op") == ">>" or re.search(r"(^|::)(sto[a-z]+|strto[a-z]+|ato[a-z])$", str(x.get("fn") or "")))
+                          for x in walk(g["body"]))
+            if not partial:
+                R.soft_broken("K1c: SLHAea::to<%s> is implemented in a way this rule does not model" % (g.get("ret") or "?"))
+                continue
+        R.check("K1c", bool(ok), "SLHAea::to<%s> is boost::lexical_cast" % (g.get("ret") or "?"), F.loc(g),
+                "SLHAea::to is not a plain boost::lexical_cast any more: a stream extraction or a partial parse accepts tokens such as "
+                "`2x` or `3.7` for an integer index", key="K1c|%s" % (g.get("ret") or "?"))
+
     # ---- K7: a parsed integer is not narrowed afterwards ---------------------------------------------------------
     R.rule("K7", "a parsed key / index token is not narrowed to a smaller integer type without a range test (a token that "
                  "overflows the type it is used as must be rejected, not aliased to another key)", 0)
